@@ -19,6 +19,13 @@ EXC = {
 }
 
 
+_CATEGORY = {
+    "error": {"connect": "ConnectError", "start_tls": "ConnectError", "read": "ReadError", "write": "WriteError"},
+    "timeout": {"connect": "ConnectTimeout", "start_tls": "ConnectTimeout", "read": "ReadTimeout", "write": "WriteTimeout"},
+    "eof": {"read": "eof"},
+}
+
+
 class HarnessHang(BaseException):
     """A blocking operation that can never complete (inline mode: read with nothing pending, no timeout)."""
 
@@ -223,8 +230,12 @@ class World:
                 if "kind_index" in f and f["kind_index"] != op["kind_index"]:
                     continue
             f["fired"] = True
-            self.fired_faults.append({"fault": f["fault"], "seq": op["seq"], "kind": op["kind"], "pipe": op["pipe"]})
-            return f["fault"]
+            name = f["fault"]
+            if name in _CATEGORY:
+                # a fault *category*: resolved to the documented failure kind of the op it lands on
+                name = _CATEGORY[name].get(op["kind"], _CATEGORY["error"][op["kind"]])
+            self.fired_faults.append({"fault": name, "seq": op["seq"], "kind": op["kind"], "pipe": op["pipe"]})
+            return name
         return None
 
     def _elig(self, op):
